@@ -615,7 +615,12 @@ static Exec run_one(const Scenario& sc, const std::vector<uint8_t>& prefix, vr::
             // (a request whose connection attempt failed is never settled by pistache - PrintException() is all that
             // happens -, which the property, speaking of established connections, does not cover: allowed for)
             if (unsent > inQueue + sc.connectFaults && x.ok && issuerActor.empty() && !serverCloses)
-                ctx.violation("c15:request-handed-to-a-connection-but-never-sent", detail("\"request\":" + std::to_string(firstUnsent) + ",\"unsent\":" + std::to_string(unsent) + ",\"in_client_queue\":" + std::to_string(inQueue)));
+            {
+                std::string dbg = ",\"server_connections\":" + std::to_string(srv.conns.size()) + ",\"listener_has_pending_connection\":" + (srv.can_accept() ? "true" : "false") + ",\"reactor0_ready\":" + (sim::actor_ready(0) ? "true" : "false");
+                for (size_t ci = 0; ci < srv.conns.size(); ++ci)
+                    dbg += ",\"conn" + std::to_string(ci) + "_readable\":" + (srv.can_read(ci) ? "true" : "false");
+                ctx.violation("c15:request-handed-to-a-connection-but-never-sent", detail("\"request\":" + std::to_string(firstUnsent) + ",\"unsent\":" + std::to_string(unsent) + ",\"in_client_queue\":" + std::to_string(inQueue) + dbg));
+            }
         }
         if (srv.peakOpen > sc.limit)
             ctx.violation("c15:more-connections-than-configured", detail("\"peak\":" + std::to_string(srv.peakOpen) + ",\"limit\":" + std::to_string(sc.limit)));
